@@ -118,7 +118,10 @@ class HubRun:
             with open(full, "wb") as f:
                 f.write(contents[key])
         self.root = os.path.realpath(self.root)
-        self.sockpath = os.path.join(workdir, "g.sock")
+        # abstract unix socket (leading NUL): independent of how deep the work directory is
+        HubRun._sock_counter = getattr(HubRun, "_sock_counter", 0) + 1
+        self.sockname = "fsmon-gate-%d-%d" % (os.getpid(), HubRun._sock_counter)
+        self.sockpath = "@" + self.sockname
         self.home = os.path.join(workdir, "home")
         os.makedirs(self.home)
 
@@ -133,7 +136,7 @@ class HubRun:
     # ---------------------------------------------------------- process control
     def start(self):
         lst = socket.socket(socket.AF_UNIX, socket.SOCK_STREAM)
-        lst.bind(self.sockpath)
+        lst.bind("\0" + self.sockname)
         lst.listen(16)
         lst.settimeout(WATCHDOG)
         for s in self.servers:
